@@ -39,6 +39,8 @@ var (
 	// Log of what happened natively, printed by the replay test.
 	Reached  = map[string]int{}
 	Observed []string
+	// Trace is the sequence of assertion outcomes and witnesses of this run (translator validation).
+	Trace []string
 )
 
 // Failure is the panic value raised by a failed Assert / Fail.
@@ -75,6 +77,7 @@ func Reset() {
 	counters = map[string]int{}
 	Reached = map[string]int{}
 	Observed = nil
+	Trace = nil
 }
 
 func name(label string) string {
@@ -197,6 +200,9 @@ func Assume(c bool) {
 }
 
 func Assert(c bool, msg string) {
+	mu.Lock()
+	Trace = append(Trace, fmt.Sprintf("assert:%s:%v", msg, c))
+	mu.Unlock()
 	if !c {
 		panic(Failure{msg})
 	}
@@ -207,6 +213,7 @@ func Fail(msg string) { panic(Failure{msg}) }
 func Reach(label string) {
 	mu.Lock()
 	Reached[label]++
+	Trace = append(Trace, "reach:"+label)
 	mu.Unlock()
 }
 
